@@ -311,10 +311,13 @@ def match_known(prop, v, known):
             continue
         if k.get("msg_prefix") and not v["msg"].startswith(k["msg_prefix"]):
             continue
+        if k.get("msg_contains") and k["msg_contains"] not in v["msg"]:
+            continue
         region = k.get("region")
         if region:
             try:
-                ok = eval(region, {"__builtins__": {}}, {"v": v["values"], "c": v["choices"],
+                ok = eval(region, {"__builtins__": {"any": any, "all": all, "len": len, "str": str}},
+                          {"v": v["values"], "c": v["choices"],
                                                          "info": v.get("info", {})})
             except Exception:
                 ok = False
@@ -506,8 +509,12 @@ def run_check(prop: str, tier: str, harness_filter=None, workers=None) -> int:
     with open(os.path.join(VERIF, "evidence", f"{prop}.json"), "w") as f:
         json.dump(ev, f, indent=1, default=str)
 
+    printed = set()
     for k, v, p in known_hits:
-        print(f"KNOWN-FINDING: property={prop} {k.get('id','')} {k.get('what','')}")
+        line = f"KNOWN-FINDING: property={prop} {k.get('id','')} {k.get('what','')}"
+        if line not in printed:
+            printed.add(line)
+            print(line)
     for e in per:
         tw = e.get("twin", {})
         print(
